@@ -186,6 +186,30 @@ pub fn judge(ctx: &mut Ctx, b: &[u8], what: &str) {
 }
 
 pub fn run(ctx: &mut Ctx) {
+    // requests with many header fields (distinct names, repeated names, recognised and not): no count is part
+    // of either parser's contract, so they agree for 1 as for 400
+    if ctx.shard == 2 % ctx.nshards {
+        for n in [1usize, 40, 99, 100, 101, 128, 150, 255, 256, 257, 400] {
+            for kind in 0..3usize {
+                let mut s = format!("{} /many HTTP/1.{}\r\n", ["GET", "PUT", "PATCH"][kind], n % 2).into_bytes();
+                for i in 0..n {
+                    let line = match kind {
+                        0 => format!("X-Custom-{}: value-{}\r\n", i, i),
+                        1 => format!("X-Same: {}\r\nx-{}: v\r\n", i, i),
+                        _ => format!("Accept: text/plain\r\nX-{}: {}\r\n", i % 120, i),
+                    };
+                    s.extend_from_slice(line.as_bytes());
+                }
+                if kind > 0 {
+                    s.extend_from_slice(b"Content-Length: 3\r\n\r\nabc");
+                } else {
+                    s.extend_from_slice(b"\r\n");
+                }
+                ctx.rep.count("requests_with_many_header_fields");
+                judge(ctx, &s, "many header fields");
+            }
+        }
+    }
     let n_base = ctx.budget(12000, 300000);
     for i in 0..n_base {
         if !ctx.mine(i) {
